@@ -61,6 +61,7 @@ class Env:
 
             famqp.install()
             self.aserver = famqp.Server(loop.time)
+            self.aserver.slow_confirm = bool(seed % 2)
             self._amqp_lat: dict[str, Callable[[], float]] = {}
             famqp.set_context(self.aserver, self._amqp_lat)
 
